@@ -537,3 +537,8 @@ def fresh(ty: Ty, hint="v") -> SV:
 def fresh_term(sort, hint="k"):
     _fresh_n[0] += 1
     return z3.Const(f"{hint}!{_fresh_n[0]}", sort)
+
+
+def strval(c: str):
+    """String literal term, registered so that closed facts about it are instantiated."""
+    return STR.lift(c)
